@@ -163,8 +163,20 @@ Inductive rres :=
 | RErr
 | RFuel.
 
+(** Naming of the leaves.  Current code (after "fix: JSONToPlainStringMap keeps keys whose first
+    segment is empty"): the recursion carries [prefix] = dotted path of the enclosing object
+    FOLLOWED by a dot ("" for the document); a member is named prefix ++ key and a nested object
+    is read with prefix (name ++ ".").
+    [old = true] is the reader before that fix: it carried the parent's name and inserted the dot
+    only when that name was not empty, so {"":{"b":..}} was read as "b".  Kept for the regression
+    witness C20_write_read_leading_dot_refuted. *)
 Definition join_key (parent key : bytes) : bytes :=
   match parent with [] => key | _ :: _ => parent ++ DOT :: key end.
+
+Definition key_of (old : bool) (parent key : bytes) : bytes :=
+  if old then join_key parent key else parent ++ key.
+Definition child_of (old : bool) (name : bytes) : bytes :=
+  if old then name else name ++ [DOT].
 
 Definition is_digit_or_minus (c : byte) : bool := (N.leb 48 c && N.leb c 57) || N.eqb c 45.
 
@@ -205,8 +217,9 @@ Definition after_value (loop : bytes -> flatmap -> rres) (acc : flatmap) (rest :
 
 (** Get(data[offset:]) = nextToken + getType, then the callback of jsonToPlainStringMap.
     [cur] = text at the first token of the value ([] = nextToken returned -1), [each] = the
-    recursive jsonToPlainStringMap, [cont] = what follows the value. *)
-Definition value_step (each : bytes -> bytes -> flatmap -> rres) (cont : flatmap -> bytes -> rres)
+    recursive jsonToPlainStringMap already applied to the nested object's prefix, [cont] = what
+    follows the value. *)
+Definition value_step (each : bytes -> flatmap -> rres) (cont : flatmap -> bytes -> rres)
            (nk : bytes) (cur : bytes) (acc : flatmap) : rres :=
   match cur with
   | [] => RErr
@@ -229,7 +242,7 @@ Definition value_step (each : bytes -> bytes -> flatmap -> rres) (cont : flatmap
       match block_end LBRACE RBRACE cur with
       | None => RErr
       | Some (blk, t4) =>
-        match each nk blk acc with
+        match each blk acc with
         | ROk acc' => cont acc' t4
         | e => e
         end
@@ -246,7 +259,7 @@ Definition value_step (each : bytes -> bytes -> flatmap -> rres) (cont : flatmap
 
 (** [obj_each] = jsonToPlainStringMap(parent, result, data) = ObjectEach(data, callback);
     [obj_loop] = the "for offset < len(data)" loop of ObjectEach with cur = data[offset:]. *)
-Fixpoint obj_each (fuel : nat) (parent data : bytes) (acc : flatmap) {struct fuel} : rres :=
+Fixpoint obj_each (old : bool) (fuel : nat) (parent data : bytes) (acc : flatmap) {struct fuel} : rres :=
   match fuel with
   | O => RFuel
   | S f =>
@@ -256,11 +269,11 @@ Fixpoint obj_each (fuel : nat) (parent data : bytes) (acc : flatmap) {struct fue
       if negb (N.eqb c LBRACE) then RErr
       else match skipws t with
            | [] => RErr
-           | c1 :: t1 => if N.eqb c1 RBRACE then ROk acc else obj_loop f parent (c1 :: t1) acc
+           | c1 :: t1 => if N.eqb c1 RBRACE then ROk acc else obj_loop old f parent (c1 :: t1) acc
            end
     end
   end
-with obj_loop (fuel : nat) (parent cur : bytes) (acc : flatmap) {struct fuel} : rres :=
+with obj_loop (old : bool) (fuel : nat) (parent cur : bytes) (acc : flatmap) {struct fuel} : rres :=
   match fuel with
   | O => RFuel
   | S f =>
@@ -273,12 +286,15 @@ with obj_loop (fuel : nat) (parent cur : bytes) (acc : flatmap) {struct fuel} : 
         match read_key t with
         | None => RErr
         | Some (key, cur3) =>
-          value_step (obj_each f) (after_value (obj_loop f parent)) (join_key parent key) cur3 acc
+          let nk := key_of old parent key in
+          value_step (obj_each old f (child_of old nk)) (after_value (obj_loop old f parent)) nk cur3 acc
         end
     end
   end.
 
-Definition read_json (data : bytes) : rres := obj_each (S (length data)) [] data [].
+Definition read_json (data : bytes) : rres := obj_each false (S (length data)) [] data [].
+(** the reader before the fix of the empty-parent naming *)
+Definition read_json_old (data : bytes) : rres := obj_each true (S (length data)) [] data [].
 
 (** * formatStringJSON *)
 
@@ -488,19 +504,23 @@ with members_ok (strict : bool) (m : members) : bool :=
   end.
 
 (** the string / number leaves of a document with their dotted paths (keys decoded) and decoded
-    values, in document order; every other kind of value contributes nothing *)
-Fixpoint leaves_v (key : bytes) (v : jv) : flatmap :=
+    values, in document order; every other kind of value contributes nothing.  [parent] is the
+    prefix (current naming) or the parent's name ([old]). *)
+Fixpoint leaves_v (old : bool) (key : bytes) (v : jv) : flatmap :=
   match v with
   | JStr s => [(key, decode s)]
   | JNum t => [(key, t)]
-  | JObj m _ => leaves_m key m
+  | JObj m _ => leaves_m old (child_of old key) m
   | _ => []
   end
-with leaves_m (parent : bytes) (m : members) : flatmap :=
+with leaves_m (old : bool) (parent : bytes) (m : members) : flatmap :=
   match m with
   | MNil => []
-  | MCons _ k _ _ v _ m' => leaves_v (join_key parent (decode k)) v ++ leaves_m parent m'
+  | MCons _ k _ _ v _ m' => leaves_v old (key_of old parent (decode k)) v ++ leaves_m old parent m'
   end.
+
+(** the leaves of a whole document: member names joined with "." along the path *)
+Definition doc_leaves (m : members) : flatmap := leaves_m false [] m.
 
 (** the first dot-separated segment of the key is empty *)
 Definition starts_dot (k : bytes) : bool := match k with c :: _ => N.eqb c DOT | [] => false end.
